@@ -104,7 +104,9 @@ class PandasTimeWindowFeatureGroup(TimeWindowFeatureGroup):
 
         # Create a copy of the DataFrame with the time filter feature as the index
         # This is necessary for time-based rolling operations
-        df_with_time_index = data.set_index(time_filter_feature).sort_index()
+        # Row positions in time order (stable, so rows with equal times keep their order)
+        time_order = data[time_filter_feature].to_numpy().argsort(kind="stable")
+        df_with_time_index = data.iloc[time_order].set_index(time_filter_feature)
 
         # Select the columns to perform window operation on
         if len(in_features) == 1:
@@ -161,8 +163,12 @@ class PandasTimeWindowFeatureGroup(TimeWindowFeatureGroup):
                 # For first/last, already computed on each column, now aggregate across columns
                 result = result.mean(axis=1)  # Use mean as aggregation for first/last
 
-        # Convert to numpy array to avoid type issues
-        return result.values
+        # Convert to numpy array to avoid type issues; the values are in time order, put each one back
+        # into the row it belongs to (the data need not be sorted by time)
+        values = result.to_numpy()
+        restored = values.copy()
+        restored[time_order] = values
+        return restored
 
     @classmethod
     def _get_pandas_freq(cls, window_size: int, time_unit: str) -> str:
